@@ -173,7 +173,7 @@ def cases(tier, seed):
     for depth, emit, recursive, dry in itertools.product((2, 3), EMITS if tier != "quick" else ("class", "function", "sqlalchemy", "pydantic"), (False, True), (False, True)):
         yield dict(depth=depth, partial_all=False, emit=emit, recursive=recursive, filter="none", dry_run=dry, out_exists=False, sqlalchemy_submodule=False, layout="via_subpackage_typed")
     # modules whose class is a declarative SQLAlchemy model with a table name of its own
-    for depth, emit, recursive, dry in itertools.product((1, 2), EMITS if tier != "quick" else ("class", "function", "sqlalchemy", "pydantic"), (False, True), (False, True)):
+    for depth, emit, recursive, dry in itertools.product((1, 2), EMITS if tier != "quick" else ("class", "function", "sqlalchemy", "pydantic", "sqlalchemy_table"), (False, True), (False, True)):
         yield dict(depth=depth, partial_all=False, emit=emit, recursive=recursive, filter="none", dry_run=dry, out_exists=False, sqlalchemy_submodule=False, layout="sql_model")
     # further options of the command: --target-module-name, --no-word-wrap, --extra-module
     for depth, emit, recursive, dry, flags in itertools.product((1, 2), ("class", "function", "sqlalchemy") if tier == "quick" else EMITS, (False, True), (False, True),
